@@ -131,3 +131,32 @@ def run(chk):
         if len(chk.samples) < 3 and impl['faces']:
             f = impl['faces'][0]
             chk.sample({'op': 'tess', 'family': r.family, 'n': inp.n, 'face0': {'left': f.left, 'right': f.right, 'normal': fl3(f.normal), 'area': fl(f.area)}})
+
+    # ---- tessellations with one very large cell / very uneven density (op bigtess; implementation-only relations)
+    binary, _ = cargo_build('ibig,rayon', False)
+    rec_f = os.path.join(chk.wdir(), 'bigtess.rec')
+    rc, fams, err = run_harness(binary, 'bigtess', chk.seed, chk.tier, rec_f)
+    if rc != 0:
+        chk.violation('harness', 'harness op bigtess failed: %s' % err[-300:], None)
+        return
+    for k, v in fams.items():
+        chk.families[k] = chk.families.get(k, 0) + v
+    nbig = 0
+    for r in read_records(rec_f):
+        chk.count()
+        rp = {'op': 'bigtess', 'ids': [r.id], 'family': r.family, 'record': r.line[:3000]}
+        impl = parse_tess_impl(r.res)
+        if 'panic' in impl:
+            chk.panic_record(r, impl['panic'], rp)
+            continue
+        inp = parse_input(r.inp)
+        tol = Tol(inp)
+        if tol.ill:
+            chk.extra_cov['skipped_ill_conditioned'] = chk.extra_cov.get('skipped_ill_conditioned', 0) + 1
+            continue
+        check_record(chk, r, rp, inp, tol, impl)
+        chk.traces += 1
+        nbig += 1
+        chk.nontriv((r.id, 'big'))
+        chk.extra_cov['largest_face_count_of_a_cell'] = max(chk.extra_cov.get('largest_face_count_of_a_cell', 0), max(c.cnt for c in impl['cells']))
+    chk.extra_cov['bigtess_records'] = nbig
